@@ -679,13 +679,26 @@ class PathProver:
         self.u.pure = not self.ab.other_uf
         self.u.prefer_nlsat = bool(self.ab.sqrt)
         handler = on_cex
-        if on_cex is not None and self.delta is not None:
-            handler = self._robust(on_cex, rels, phi2, hyps, axioms)
+        if on_cex is not None:
+            if self.delta is not None:
+                handler = self._robust(on_cex, rels, phi2, hyps, axioms)
+            handler = self._abstract_block(handler)
         try:
             return self.u.prove(name, phi2, hyps, handler, axioms=axioms,
                                 mandatory=mandatory, sample=sample, blockers=blockers)
         finally:
             self.u.pure = False
+
+    def _abstract_block(self, on_cex):
+        """The characterising constraint of a finding is stated on the code's
+        terms; the query is solved on their abstraction."""
+        def wrapped(m):
+            info = dict(on_cex(m))
+            if info.get("block") is not None:
+                self.ab.extend([info["block"]])
+                info["block"] = self.ab.apply(info["block"])
+            return info
+        return wrapped
 
     def _robust(self, on_cex, rels, phi2, hyps, axioms):
         """Counterexample handler that, when the solver's witness does not
@@ -700,7 +713,14 @@ class PathProver:
                 if info.get("block") is not None:
                     seen_blocks.append(info["block"])
                 return info
-            extra = [self.ab.apply(c) for c in ties_free(self.pc, self.delta)]
+            extra = []
+            for c in ties_free(self.pc, self.delta):
+                c = self.ab.apply(c)
+                # comparisons that are ties on the whole path (0.02*q against the 0.02*q cutoff)
+                # cannot be given a margin: leave them out
+                if self.u.solve(list(hyps) + list(axioms) + [c], 2000)[0] == "sat":
+                    extra.append(c)
+                self.u.r["solver_checks"] -= 1
             if not z3.is_expr(rels):
                 viol = [r.z3_robust_violation(self.delta) for r in rels]
                 viol = [self.ab.apply(x) for x in viol if x is not None]
@@ -710,6 +730,9 @@ class PathProver:
                 [z3.Not(self.ab.apply(b)) for b in seen_blocks]
             r, m2, _s = self.u.solve(cons, 20000)
             self.u.r["solver_checks"] -= 1
+            import os
+            if os.environ.get("RS_DEBUG"):
+                print("robust retry:", r, len(extra), file=__import__("sys").stderr)
             if r != "sat":
                 return info
             info2 = on_cex(m2)
